@@ -63,6 +63,8 @@ KIND_NAMES = {
     903: 'C09/picker_ws: piecepicker with web seeds (PickWebseed, stop-at, close, web-seed and peer steals, PickFor in web-seed mode) under the torrent glue vs PickerWs.v (answers validated against the legal set)',
     905: 'C09/file_edges: markFileEdges of the real picker (sequential mode) on generated layouts incl. zero-length, tiny, huge and padding files vs Edges.v',
     1605: 'C16/reply_limit: httptracker.Announce against a local server whose reply is around, below or above the configured limit, with a declared length or streamed in chunks vs Tracker.read_reply',
+    1504: 'C15/stop_event: a real session against a scripted HTTP tracker that accepts, answers with a failure reason or with HTTP 500: the stopped event is sent only after an accepted announce',
+    1903: 'C19/shared_tracker: a public and a private torrent of one session announcing to the same tracker URL (either one first): each identifies itself with its own user agent',
     1901: 'C19/private_flag: metainfo.NewInfo on generated encodings of the private field (integers incl. out of int64 range, strings, lists, dictionaries, absent) vs Priv.priv_of_raw',
     1902: 'session/private: private, public and magnet torrents in the stepped event loop with a scripted HTTP tracker and scripted peers, DHT/PEX/dial switches on and off, optionally after a session restart: addresses known by source, DHT announcer and request queue, PEX senders, magnet export, metadata adoption, user agent / peer id / client version, dial of a probe listener vs Priv.v',
 }
@@ -114,7 +116,7 @@ PROPS = {
         'assumptions': ['one event-loop goroutine per torrent; constructors finish before the object is shared', 'pointees with their own synchronisation (counters, channels, the resource manager) are outside the table: only the fields of torrent and Session are tracked'],
     },
     'C19': {
-        'kinds': {1901: {'quick': 3000, 'thorough': 60000}, 1902: {'quick': 1200, 'thorough': 30000}},
+        'kinds': {1901: {'quick': 3000, 'thorough': 60000}, 1902: {'quick': 1200, 'thorough': 30000}, 1903: {'quick': 32, 'thorough': 400}},
         'trusted': ['zeebo/bencode decoding of the private field beyond sampled agreement with Bencode.decode', 'the nictuku/dht node itself (the session is observed up to its request queue dhtPeerRequests; what the node sends is not observed)'],
         'assumptions': ['the metainfo of a torrent does not change once known (info is set once)'],
     },
@@ -170,7 +172,7 @@ PROPS = {
         'assumptions': [],
     },
     'C15': {
-        'kinds': {1501: {'quick': 2000, 'thorough': 40000}, 1502: {'quick': 600, 'thorough': 8000}, 1503: {'quick': 160, 'thorough': 2400}},
+        'kinds': {1501: {'quick': 2000, 'thorough': 40000}, 1502: {'quick': 600, 'thorough': 8000}, 1503: {'quick': 160, 'thorough': 2400}, 1504: {'quick': 48, 'thorough': 600}},
         'trusted': ['net/http client and server deliver the raw query unchanged', 'encoding/binary struct layout'],
         'assumptions': [],
     },
